@@ -46,8 +46,11 @@ package reversedns
 //@ requires[pre.cache.inv]  forallstr(k, cached("reverse-dns-"+k) ==> cachedAs("reverse-dns-"+k, []string) && dnsAns(k, cachedval("reverse-dns-"+k, []string)))
 //@ ensures[C18.ips.noerr]   ret1 == nil && ret0 != nil
 //@ ensures[C18.ips.exact]   forallstr(s, has(ret0, s) ==> dnsAns(iptext(s), ret0[s]))
+//@ ensures[C18.ips.fanout]  nspawned("GetReverseDnsForIPs$1") == old(nspawned("GetReverseDnsForIPs$1")) + len(ips)
+//@ loop 1 invariant[C18.fanout] 0 <= range_i && range_i <= len(ips) && nspawned("GetReverseDnsForIPs$1") == old(nspawned("GetReverseDnsForIPs$1")) + range_i
 //@ modifies ghost clock, ghost cache.has, ghost cache.tag, ghost cache.ref, ghost cache.exp, ghost dns.ans, ghost dns.len, ghost dns.n
 
+// (one lookup goroutine per element of the input: the fan-out covers every address, duplicates included)
 //@ func GetReverseDnsForIPs$1
 //@ safety C18 C14
 //@ requires[pre.nonnil]     outputIPs != nil && !held(mu)
